@@ -396,6 +396,37 @@ Definition create (opi : nat) (pod : name) (r : res) (plan : option (list (name 
 Fixpoint send_lines (id : wid) (k : nat) : cprog unit :=
   match k with O => skip | S k' => send (MLambdaOut id) ;;; send_lines id k' end.
 
+(* the part of the lambda closure between the WAL entry and the deferred actions: returns the last message *)
+Definition lambda_body (stdin : bool) (lines : nat) (id : wid) : cprog msg :=
+  r <- call1 (SGetWorkload id) ;;
+  match r with
+  | RWl _ =>
+    e <- doc (ELogs id) ;;
+    match e with
+    | Some _ => Ret (MLambdaErr (Some id))
+    | None =>
+      e2 <- (if stdin then doc (EAttach id) else rok) ;;
+      match e2 with
+      | Some _ => Ret (MLambdaErr (Some id))
+      | None =>
+        (* with stdin the stream is forwarded byte by byte; a scripted line is two bytes *)
+        send_lines id (if stdin then (lines + lines)%nat else lines) ;;;
+        c <- call1 (EWait id) ;;
+        match c with
+        | RCode code => Ret (MLambdaExit id code)
+        | _ => Ret (MLambdaErr (Some id))
+        end
+      end
+    end
+  | _ => Ret (MLambdaErr (Some id))
+  end.
+
+(* the deferred actions, LIFO: remove the workload, commit the WAL entry, send the last message *)
+Definition lambda_cleanup (id : wid) (tok : nat) (final : msg) : cprog unit :=
+  ign (remove false [id] true) ;;;
+  ign (doc (WCommit tok (EvLambda id))) ;;;
+  send final.
+
 (* the lambda closure for one create message *)
 Definition lambda_one (stdin : bool) (lines : nat) (m : msg) : cprog unit :=
   match m with
@@ -403,33 +434,8 @@ Definition lambda_one (stdin : bool) (lines : nat) (m : msg) : cprog unit :=
     t <- call1 (WLog (EvLambda id)) ;;
     match t with
     | RToken tok =>
-      final <- (
-        r <- call1 (SGetWorkload id) ;;
-        match r with
-        | RWl _ =>
-          e <- doc (ELogs id) ;;
-          match e with
-          | Some _ => Ret (MLambdaErr (Some id))
-          | None =>
-            e2 <- (if stdin then doc (EAttach id) else rok) ;;
-            match e2 with
-            | Some _ => Ret (MLambdaErr (Some id))
-            | None =>
-              (* with stdin the stream is forwarded byte by byte; a scripted line is two bytes *)
-              send_lines id (if stdin then (lines + lines)%nat else lines) ;;;
-              c <- call1 (EWait id) ;;
-              match c with
-              | RCode code => Ret (MLambdaExit id code)
-              | _ => Ret (MLambdaErr (Some id))
-              end
-            end
-          end
-        | _ => Ret (MLambdaErr (Some id))
-        end) ;;
-      (* deferred, LIFO: remove the workload, commit the WAL entry, send the last message *)
-      ign (remove false [id] true) ;;;
-      ign (doc (WCommit tok (EvLambda id))) ;;;
-      send final
+      final <- lambda_body stdin lines id ;;
+      lambda_cleanup id tok final
     | _ =>
       (* the WAL entry could not be written: remove the workload, then report *)
       ign (remove false [id] true) ;;; send (MLambdaErr (Some id))
